@@ -116,6 +116,49 @@ def ok_patterns(pats):
     return out
 
 
+def pattern_candidates(term, var, limit=3):
+    """uninterpreted applications / array reads inside `term` that mention `var` (usable as
+    E-matching patterns); smallest ones first"""
+    out = []
+    seen = set()
+
+    def mentions(t):
+        st = [t]
+        while st:
+            u = st.pop()
+            if u.eq(var):
+                return True
+            if z3.is_app(u):
+                st.extend(u.children())
+        return False
+
+    def walk(t):
+        if t.get_id() in seen or not z3.is_app(t):
+            return
+        seen.add(t.get_id())
+        for ch in t.children():
+            walk(ch)
+        k = t.decl().kind()
+        if (k == z3.Z3_OP_UNINTERPRETED and t.num_args() > 0) or k == z3.Z3_OP_SELECT:
+            if mentions(t) and not has_binder(t):
+                out.append(t)
+    walk(term)
+    # keep minimal ones (no candidate strictly inside)
+    mins = [t for t in out if not any((o is not t) and _inside(o, t) for o in out)]
+    return mins[:limit]
+
+
+def _inside(small, big):
+    st = list(big.children())
+    while st:
+        u = st.pop()
+        if u.eq(small):
+            return True
+        if z3.is_app(u):
+            st.extend(u.children())
+    return False
+
+
 class ArrTerm:
     """helpers to turn an Arr into a first class z3 array term (Lambda)"""
 
@@ -539,9 +582,10 @@ class Lib:
                                                   inv(sel(j)) == j), ), patterns=[sel(j)]))
         ctx.fact(z3.ForAll([j, j2], z3.Implies(z3.And(j >= 0, j < j2, j2 < m), sel(j) < sel(j2)),
                            patterns=[z3.MultiPattern(sel(j), sel(j2))]))
-        ctx.fact(z3.ForAll([i], z3.Implies(z3.And(i >= 0, i < n, to_z3(mf((i,)))),
+        mterm = to_z3(mf((i,)))
+        ctx.fact(z3.ForAll([i], z3.Implies(z3.And(i >= 0, i < n, mterm),
                                            z3.And(inv(i) >= 0, inv(i) < m, sel(inv(i)) == i)),
-                           patterns=[inv(i)]))
+                           patterns=[inv(i)] + pattern_candidates(mterm, i)))
         # m == CNT(mask, n)
         ctx.fact(m == CNT(ArrTerm.of(mask, 'bool'), n))
         msnap = mask.snapshot()
@@ -715,8 +759,10 @@ class Lib:
             if a.ndim == 2:
                 base = a
                 return Arr((a.shape[1], a.shape[0]), lambda ix: base.f((ix[1], ix[0])), a.dtype)
-        if name == 'data' and a.ghost.get('masked') is not None:
-            return a.ghost['masked']['data']
+        if name == 'data':
+            # masked array: the raw data; plain ndarray: a buffer that numpy reads back as the array
+            f = a.f
+            return Arr(a.shape, f, a.dtype)
         return LibMethod(a, name)
 
     def obj_getattr(self, o, name):
@@ -994,6 +1040,8 @@ def _minmax(L, a, kw, ismin):
 
 @model('builtins.sum')
 def _sum(L, it, start=0):
+    if isinstance(it, Arr) and it.ndim == 1 and not isinstance(simp(it.shape[0]), int) and start == 0:
+        return sum_term(L, it)
     r = start
     for x in L.I.iterate(it):
         r = L.I.binop(ast.Add(), r, x)
@@ -1490,14 +1538,30 @@ def _searchsorted(L, a, v, side='left', sorter=None):
         if v.ndim != 1:
             raise Unsupported('searchsorted of nd values')
         K = ctx.fresh_fun('ss', z3.IntSort(), z3.IntSort())
-        fv = v.f
-
-        def f(ix):
-            k = K(to_z3(ix[0]))
-            one(fv(ix), k)
-            return k
-        r = Arr(v.shape, f, 'int64')
-        r.ghost['searchsorted'] = dict(a=a.snapshot(), v=v.snapshot(), side=side)
+        fv = v.snapshot().f
+        # quantified over the element index q (facts for every element, not only the ones evaluated)
+        q, t = z3.Int('q!ss'), z3.Int('t!ss')
+        vq = to_z3(fv((q,)))
+        e = to_z3(fa((t,)))
+        e, vq2 = unify(e, vq)
+        if side == 'left':
+            below, above = e < vq2, e >= vq2
+        else:
+            below, above = e <= vq2, e > vq2
+        inq = z3.And(0 <= q, q < to_z3(v.shape[0]))
+        ctx.fact(z3.ForAll([q], z3.Implies(inq, z3.And(K(q) >= 0, K(q) <= n)), patterns=[K(q)]))
+        ctx.fact(z3.ForAll([q, t], z3.Implies(z3.And(inq, 0 <= t, t < K(q)), below),
+                           patterns=[z3.MultiPattern(K(q), fa((t,)))] if not has_binder(to_z3(fa((t,)))) else []))
+        ctx.fact(z3.ForAll([q, t], z3.Implies(z3.And(inq, K(q) <= t, t < n), above),
+                           patterns=[z3.MultiPattern(K(q), fa((t,)))] if not has_binder(to_z3(fa((t,)))) else []))
+        from . import spec
+        if side == 'left':
+            ctx.fact(z3.ForAll([q], z3.Implies(inq, spec.cge(a, n, vq) == n - K(q)), patterns=[K(q)]), lemma=True)
+        else:
+            ctx.fact(z3.ForAll([q], z3.Implies(inq, spec.cle(a, n, vq) == K(q)), patterns=[K(q)]), lemma=True)
+        L.I.used_lemmas.add('L3.partition_count')
+        r = Arr(v.shape, lambda ix: K(to_z3(ix[0])), 'int64')
+        r.ghost['searchsorted'] = dict(a=a.snapshot(), v=v.snapshot(), side=side, K=K)
         return r
     k = ctx.fresh_int('ss')
     return one(v, k)
@@ -1573,7 +1637,11 @@ def flat_view(L, a):
 
 @method('Arr', 'ravel', 'flatten')
 def _ravel(L, a, *args):
-    return flat_view(L, a)
+    r = flat_view(L, a)
+    if hasattr(a, 'mask') and r is not a:
+        from .models_sci import MArr
+        return MArr(r, flat_view(L, a.mask))
+    return r
 
 
 @model('numpy.ravel')
@@ -1612,6 +1680,23 @@ def _m_sum(L, a, axis=None, **kw):
     return _np_sum(L, a, axis=axis, **kw)
 
 
+def _mentions(t, var):
+    st = [t]
+    seen = set()
+    while st:
+        u = st.pop()
+        if u.get_id() in seen:
+            continue
+        seen.add(u.get_id())
+        if u.eq(var):
+            return True
+        if z3.is_app(u):
+            st.extend(u.children())
+        elif z3.is_quantifier(u):
+            st.append(u.body())
+    return False
+
+
 def sum_term(L, a):
     """sum over a 1-d Arr as a z3 term (concrete length: expanded)"""
     n = simp(a.shape[0])
@@ -1623,6 +1708,22 @@ def sum_term(L, a):
                 e = to_int_of_bool(to_z3(e)) if is_sym(e) else int(e)
             r = L.I.S.binop(ast.Add(), r, e)
         return r
+    probe = z3.Int('i!probe')
+    e = a.f((probe,))
+    if not is_sym(e) or not _mentions(to_z3(e), probe):
+        # constant array: n * c (exact)
+        if a.dtype == 'bool':
+            e = to_int_of_bool(to_z3(e))
+        return simp(to_z3(L.I.S.binop(ast.Mult(), e, to_z3(a.shape[0]))))
+    g = a.ghost.get('add_at')
+    if g is not None and g.get('newf') is a.f and a.dtype in FLOAT_DT:
+        # lemma L1+L4 instance: after add.at(a, I, v) with all indices in range, sum(a) = sum(old) + v*len(I)
+        old = Arr(a.shape, g['old'], a.dtype)
+        so = sum_term(L, old)
+        st = SUM(ArrTerm.of(a, 'real'), to_z3(a.shape[0]))
+        L.ctx.fact(st == to_real(so) + to_real(g['v']) * z3.ToReal(to_z3(g['idx'].shape[0])), lemma=True)
+        L.I.used_lemmas.add('L1.fibre_sum(add.at)')
+        return st
     if a.dtype in FLOAT_DT:
         return SUM(ArrTerm.of(a, 'real'), to_z3(a.shape[0]))
     if a.dtype == 'int64':
@@ -1787,7 +1888,7 @@ def _add_at(L, a, I, v):
         inc = L.I.S.binop(ast.Mult(), v, c)
         return L.I.S.binop(ast.Add(), old(ix), inc)
     a.f = newf
-    a.ghost['add_at'] = dict(idx=I.snapshot(), v=v, old=old)
+    a.ghost['add_at'] = dict(idx=I.snapshot(), v=v, old=old, newf=newf)
     return None
 
 
